@@ -1,4 +1,10 @@
-(* Proofs for C15: decoding is canonical (decode bs = Ok m -> encode m = bs). *)
+(* Proofs for C15 over Model/TxCodec.v:
+     - decoding is canonical: decode bs = Ok m -> encode m = bs  (per-field lemmas p_*, composed with opt_field_canon
+       along the sequential form of the generated decoding loop), for Base, SerializeTx, Transaction (+ the
+       unsigned-bytes slicing), BatchedTransactions, Block, Result, ExecutionResults;
+     - the concrete parsers (TypeParser, Transfer/linearcodec, the auth formats) are canonical;
+     - round trip: decode (encode m) = Ok m for valid m (field_rt / opt_field_rt: a field is either omitted with
+       its default or read back, and later fields start with a larger tag byte). *)
 From Coq Require Import List ZArith NArith Bool Lia ZifyN ZifyNat ZifyBool.
 Import ListNotations.
 From HV Require Import Lib.Bytes Lib.U64 Lib.Varint Lib.Canoto Model.TxCodec.
@@ -151,4 +157,1003 @@ Proof.
   destruct (opt_field_canon _ _ _ 0 _ _ _ _ _ (enc_fint_field (tag 3 WT_I64)) (p_fint64 _) eq_refl W2 E3) as [H3 W3].
   apply leftover_ok in EL. subst.
   unfold encode_base. cbn [b_ts b_chain b_fee]. rewrite app_nil_r. reflexivity.
+Qed.
+
+(* ---- small list / byte helpers ------------------------------------------------------------- *)
+
+Lemma blen_app (a b : bytes) : blen (a ++ b) = blen a + blen b.
+Proof. unfold blen. rewrite app_length. lia. Qed.
+
+Lemma take_app_exact (a b : bytes) : take (blen (a ++ b) - blen b) (a ++ b) = a.
+Proof.
+  unfold take. rewrite blen_app. replace (blen a + blen b - blen b) with (blen a) by lia.
+  unfold blen. rewrite Nat2N.id.
+  replace (length a) with (length a + 0)%nat by lia. rewrite firstn_app_2. cbn [firstn]. apply app_nil_r.
+Qed.
+
+Lemma wf_enc_bytes_inv (b : bytes) : wf_bytes (enc_bytes b) -> wf_bytes b.
+Proof. unfold enc_bytes. intros H. apply wf_app in H. tauto. Qed.
+
+Lemma wf_enc_msg_field_inv tg (b : bytes) : wf_bytes (enc_msg_field tg b) -> wf_bytes b.
+Proof.
+  unfold enc_msg_field. destruct b as [|x b]; cbn [is_nil]; [intros _; constructor|].
+  intros H. apply wf_app in H. destruct H as [_ H]. apply wf_enc_bytes_inv. exact H.
+Qed.
+
+Lemma wf_enc_repeated_inv tg es : wf_bytes (enc_repeated tg es) -> Forall wf_bytes es.
+Proof.
+  induction es as [|e es IH]; intros H; [constructor|].
+  cbn [enc_repeated flat_map] in H. apply wf_app in H. destruct H as [H1 H2].
+  apply wf_app in H1. destruct H1 as [_ H1].
+  constructor; [apply wf_enc_bytes_inv; exact H1 | apply IH; exact H2].
+Qed.
+
+(* ---- SerializeTx --------------------------------------------------------------------------- *)
+
+Lemma decode_stx_canon bs s : wf_bytes bs -> decode_stx bs = Ok s -> encode_stx s = bs.
+Proof.
+  intros Hwf H. unfold decode_stx in H.
+  step3 H b m1 r1 E1. step3 H acts m2 r2 E2. step3 H auth m3 r3 E3. step1 H u EL. destruct u.
+  inversion H; subst s. clear H.
+  destruct (opt_field_canon _ _ _ base_zero _ _ _ _ _
+              (fun b => enc_msg_field (tag 1 WT_LEN) (encode_base b))
+              (fun b v r => p_msg _ decode_base encode_base b v r decode_base_canon) eq_refl Hwf E1) as [H1 W1].
+  destruct (opt_field_canon _ _ _ [] _ _ _ _ _ (enc_repeated (tag 2 WT_LEN)) (p_repeated _) eq_refl W1 E2) as [H2 W2].
+  destruct (opt_field_canon _ _ _ [] _ _ _ _ _ (enc_msg_field (tag 3 WT_LEN)) (p_bytes _) eq_refl W2 E3) as [H3 W3].
+  apply leftover_ok in EL. subst.
+  unfold encode_stx. cbn [s_base s_actions s_auth]. rewrite app_nil_r. reflexivity.
+Qed.
+
+Lemma decode_stx_wf bs s : wf_bytes bs -> decode_stx bs = Ok s ->
+  Forall wf_bytes (s_actions s) /\ wf_bytes (s_auth s).
+Proof.
+  intros Hwf H. pose proof (decode_stx_canon _ _ Hwf H) as Hc. rewrite <- Hc in Hwf.
+  unfold encode_stx in Hwf. apply wf_app in Hwf. destruct Hwf as [_ Hwf].
+  apply wf_app in Hwf. destruct Hwf as [Ha Hu]. split.
+  - apply (wf_enc_repeated_inv _ _ Ha).
+  - apply (wf_enc_msg_field_inv _ _ Hu).
+Qed.
+
+(* ---- Transaction, batch, block -------------------------------------------------------------- *)
+
+Section TxProofs.
+  Variables (A U : Type).
+  Variable parse_action : bytes -> option A.
+  Variable action_bytes : A -> bytes.
+  Variable parse_auth : bytes -> option U.
+  Variable auth_bytes : U -> bytes.
+
+  Notation txT := (tx A U).
+  Notation dec_tx := (decode_tx A U parse_action parse_auth).
+  Notation enc_tx := (encode_tx A U action_bytes auth_bytes).
+  Notation unsigned := (unsigned_of A action_bytes).
+
+  (* NewTransaction(t.Base, t.Actions, t.Auth).Bytes(): the re-encoding from the parsed parts *)
+  Definition reenc_tx (t : txT) : bytes := enc_tx (x_base t) (x_actions t) (x_auth t).
+
+  Definition auth_suffix (au : bytes) : N := blen (tag 3 WT_LEN) + (uvarint_len (blen au) + blen au).
+
+  (* what an accepted transaction consists of (no hypothesis on the parsers) *)
+  Lemma decode_tx_inv bs t : dec_tx bs = Ok t ->
+    exists s, decode_stx bs = Ok s /\ parse_actions A parse_action (s_actions s) = Ok (x_actions t) /\
+      parse_auth (s_auth s) = Some (x_auth t) /\ x_base t = s_base s /\ x_bytes t = bs /\
+      x_unsigned t = (if is_nil (s_auth s) then bs else take (blen bs - auth_suffix (s_auth s)) bs).
+  Proof.
+    unfold decode_tx. intros H. step1 H s Es. step1 H acts Ea.
+    destruct (parse_auth (s_auth s)) as [au|] eqn:Eu; [|discriminate H].
+    exists s. fold (auth_suffix (s_auth s)) in H.
+    destruct (is_nil (s_auth s)) eqn:En.
+    - inversion H; subst t. cbn. repeat split; reflexivity || assumption.
+    - destruct (blen bs <? auth_suffix (s_auth s)); [discriminate H|].
+      inversion H; subst t. cbn. repeat split; reflexivity || assumption.
+  Qed.
+
+  Lemma decode_tx_bytes bs t : dec_tx bs = Ok t -> x_bytes t = bs.
+  Proof. intros H. destruct (decode_tx_inv _ _ H) as (s & _ & _ & _ & _ & Hb & _). exact Hb. Qed.
+
+  Lemma auth_suffix_len au : auth_suffix au = blen (tag 3 WT_LEN ++ enc_bytes au).
+  Proof.
+    unfold auth_suffix, enc_bytes. rewrite !blen_app. rewrite <- uvarint_enc_length. reflexivity.
+  Qed.
+
+  Hypothesis action_canon : forall b a, wf_bytes b -> parse_action b = Some a -> action_bytes a = b.
+  Hypothesis auth_canon : forall b u, wf_bytes b -> parse_auth b = Some u -> auth_bytes u = b.
+
+  Lemma parse_actions_canon l : forall acts, Forall wf_bytes l ->
+    parse_actions A parse_action l = Ok acts -> map action_bytes acts = l.
+  Proof.
+    induction l as [|b l IH]; intros acts Hwf H; cbn [parse_actions] in H.
+    - inversion H; subst. reflexivity.
+    - inversion Hwf as [|b' l' Hb Hl]; subst.
+      destruct (parse_action b) as [a|] eqn:Ea; [|discriminate H].
+      step1 H as' Eas. inversion H; subst acts. cbn [map].
+      rewrite (action_canon _ _ Hb Ea), (IH _ Hl eq_refl). reflexivity.
+  Qed.
+
+  (* the parts of an accepted transaction are exactly the parts of the decoded SerializeTx *)
+  Lemma decode_tx_stx bs t : wf_bytes bs -> dec_tx bs = Ok t ->
+    exists s, decode_stx bs = Ok s /\ encode_stx s = bs /\
+      s = mkStx (x_base t) (map action_bytes (x_actions t)) (auth_bytes (x_auth t)) /\
+      x_unsigned t = (if is_nil (s_auth s) then bs else take (blen bs - auth_suffix (s_auth s)) bs).
+  Proof.
+    intros Hwf H. destruct (decode_tx_inv _ _ H) as (s & Hs & Ha & Hu & Hb & _ & Hun).
+    exists s. destruct (decode_stx_wf _ _ Hwf Hs) as [Wa Wu].
+    split; [exact Hs|]. split; [exact (decode_stx_canon _ _ Hwf Hs)|]. split; [|exact Hun].
+    rewrite (parse_actions_canon _ _ Wa Ha), (auth_canon _ _ Wu Hu), Hb. destruct s; reflexivity.
+  Qed.
+
+  Lemma decode_tx_canon bs t : wf_bytes bs -> dec_tx bs = Ok t -> reenc_tx t = bs.
+  Proof.
+    intros Hwf H. destruct (decode_tx_stx _ _ Hwf H) as (s & _ & Hc & Hs & _).
+    unfold reenc_tx, encode_tx. rewrite <- Hs. exact Hc.
+  Qed.
+
+  (* the signed message: sliced off the accepted bytes = encoding of base + actions without auth;
+     the accepted bytes = signed message ++ auth field *)
+  Lemma decode_tx_unsigned bs t : wf_bytes bs -> dec_tx bs = Ok t ->
+    x_unsigned t = unsigned (x_base t) (x_actions t) /\
+    bs = x_unsigned t ++ enc_msg_field (tag 3 WT_LEN) (auth_bytes (x_auth t)).
+  Proof.
+    intros Hwf H. destruct (decode_tx_stx _ _ Hwf H) as (s & _ & Hc & Hs & Hun).
+    rewrite Hun. clear Hun. rewrite Hs in *. clear Hs. cbn [s_auth].
+    unfold unsigned_of. unfold encode_stx in *. cbn [s_base s_actions s_auth] in *.
+    set (F1 := enc_msg_field (tag 1 WT_LEN) (encode_base (x_base t))) in *.
+    set (F2 := enc_repeated (tag 2 WT_LEN) (map action_bytes (x_actions t))) in *.
+    change (enc_msg_field (tag 3 WT_LEN) []) with (@nil N). rewrite app_nil_r.
+    unfold enc_msg_field at 1 in Hc. unfold enc_msg_field.
+    destruct (is_nil (auth_bytes (x_auth t))) eqn:En.
+    - rewrite app_nil_r in *. split; [symmetry; exact Hc | reflexivity].
+    - rewrite auth_suffix_len. rewrite app_assoc in Hc. clear H Hwf. subst bs.
+      rewrite take_app_exact. split; reflexivity.
+  Qed.
+
+  (* ---- entries of batches and blocks ---- *)
+
+  Lemma decode_entries_bytes es : forall os ts,
+    decode_entries A U parse_action parse_auth es = Ok os -> no_nil A U os = Ok ts ->
+    map x_bytes ts = es /\ Forall (fun t => dec_tx (x_bytes t) = Ok t) ts.
+  Proof.
+    induction es as [|e es IH]; intros os ts Hd Hn; cbn [decode_entries] in Hd.
+    - inversion Hd; subst os. cbn in Hn. inversion Hn; subst. split; [reflexivity | constructor].
+    - step1 Hd o Eo. step1 Hd os' Eos. inversion Hd; subst os. clear Hd.
+      destruct (is_nil e) eqn:En.
+      + inversion Eo; subst o. cbn [no_nil] in Hn. discriminate Hn.
+      + step1 Eo t Et. inversion Eo; subst o. cbn [no_nil] in Hn. step1 Hn ts' Ets.
+        inversion Hn; subst ts. destruct (IH _ _ eq_refl Ets) as [Hm Hf].
+        pose proof (decode_tx_bytes _ _ Et) as Hb. cbn [map]. split.
+        * rewrite Hb, Hm. reflexivity.
+        * constructor; [rewrite Hb; exact Et | exact Hf].
+  Qed.
+
+  Lemma entries_reenc ts : Forall wf_bytes (map x_bytes ts) ->
+    Forall (fun t => dec_tx (x_bytes t) = Ok t) ts -> map reenc_tx ts = map x_bytes ts.
+  Proof.
+    induction ts as [|t ts IH]; intros Hwf Hf; [reflexivity|].
+    cbn [map] in *. inversion Hwf as [|? ? Hw Hws]; subst. inversion Hf as [|? ? Ht Hts]; subst.
+    rewrite (decode_tx_canon _ _ Hw Ht), (IH Hws Hts). reflexivity.
+  Qed.
+
+  (* ---- batch ---- *)
+
+  Lemma decode_batch_canon bs ts : wf_bytes bs ->
+    decode_batch A U parse_action parse_auth bs = Ok ts ->
+    encode_batch A U ts = bs /\
+    enc_repeated (tag 1 WT_LEN) (map reenc_tx ts) = bs /\
+    Forall (fun t => dec_tx (x_bytes t) = Ok t) ts.
+  Proof.
+    intros Hwf H. unfold decode_batch in H.
+    step3 H es m1 r1 E1. step1 H os Eo. step1 H u EL. destruct u.
+    destruct (opt_field_canon _ _ _ [] _ _ _ _ _ (enc_repeated (tag 1 WT_LEN)) (p_repeated _) eq_refl Hwf E1) as [H1 W1].
+    apply leftover_ok in EL. subst r1. rewrite app_nil_r in H1.
+    destruct (decode_entries_bytes _ _ _ Eo H) as [Hm Hf].
+    assert (Hes : Forall wf_bytes es) by (apply (wf_enc_repeated_inv (tag 1 WT_LEN)); rewrite <- H1; exact Hwf).
+    unfold encode_batch. rewrite entries_reenc by (rewrite ?Hm; assumption).
+    rewrite Hm. repeat split; auto.
+  Qed.
+
+  (* ---- block ---- *)
+
+  Lemma decode_ctx_canon bs c : wf_bytes bs -> decode_ctx bs = Ok c -> encode_ctx c = bs.
+  Proof.
+    intros Hwf H. unfold decode_ctx in H. step3 H h m1 r1 E1. step1 H u EL. destruct u.
+    inversion H; subst c. clear H.
+    destruct (opt_field_canon _ _ _ 0 _ _ _ _ _ (enc_uint_field (tag 1 WT_VARINT)) (p_uint64 _) eq_refl Hwf E1) as [H1 W1].
+    apply leftover_ok in EL. subst. rewrite app_nil_r. reflexivity.
+  Qed.
+
+  Definition reenc_block (k : block A U) : bytes :=
+    encode_block A U (k_parent k) (k_ts k) (k_height k) (k_ctx k) (k_txs k) (k_root k).
+
+  Lemma decode_block_canon bs k : wf_bytes bs ->
+    decode_block A U parse_action parse_auth bs = Ok k ->
+    reenc_block k = bs /\ k_bytes k = bs /\
+    map reenc_tx (k_txs k) = map x_bytes (k_txs k) /\
+    Forall (fun t => dec_tx (x_bytes t) = Ok t) (k_txs k).
+  Proof.
+    intros Hwf H. unfold decode_block in H.
+    step3 H prnt m1 r1 E1. step3 H ts m2 r2 E2. step3 H h m3 r3 E3. step3 H ctx m4 r4 E4.
+    step3 H es m5 r5 E5. step1 H os Eo. step3 H root m6 r6 E6. step1 H u EL. destruct u.
+    step1 H txs En. inversion H; subst k. clear H.
+    destruct (opt_field_canon _ _ _ (zeros 32) _ _ _ _ _ (enc_fixed_field (tag 1 WT_LEN)) (p_fixed _ 32) eq_refl Hwf E1) as [H1 W1].
+    destruct (opt_field_canon _ _ _ 0 _ _ _ _ _ (enc_fint_field (tag 2 WT_I64)) (p_fint64 _) eq_refl W1 E2) as [H2 W2].
+    destruct (opt_field_canon _ _ _ 0 _ _ _ _ _ (enc_fint_field (tag 3 WT_I64)) (p_fint64 _) eq_refl W2 E3) as [H3 W3].
+    destruct (opt_field_canon _ _ _ None _ _ _ _ _
+                (fun c => enc_msg_field (tag 4 WT_LEN) (encode_ctx c))
+                (fun b v r => p_msg _ decode_ctx encode_ctx b v r decode_ctx_canon) eq_refl W3 E4) as [H4 W4].
+    destruct (opt_field_canon _ _ _ [] _ _ _ _ _ (enc_repeated (tag 5 WT_LEN)) (p_repeated _) eq_refl W4 E5) as [H5 W5].
+    destruct (opt_field_canon _ _ _ (zeros 32) _ _ _ _ _ (enc_fixed_field (tag 6 WT_LEN)) (p_fixed _ 32) eq_refl W5 E6) as [H6 W6].
+    apply leftover_ok in EL. subst r6.
+    destruct (decode_entries_bytes _ _ _ Eo En) as [Hm Hf].
+    assert (Hes : Forall wf_bytes es).
+    { apply (wf_enc_repeated_inv (tag 5 WT_LEN)). rewrite H5 in W4. apply wf_app in W4. tauto. }
+    unfold reenc_block, encode_block. cbn [k_parent k_ts k_height k_ctx k_txs k_root k_bytes].
+    split; [|split; [reflexivity|split; [apply entries_reenc; rewrite ?Hm; assumption | exact Hf]]].
+    rewrite Hm. subst. rewrite app_nil_r. reflexivity.
+  Qed.
+End TxProofs.
+
+(* ---- Result / ExecutionResults -------------------------------------------------------------- *)
+
+Lemma read_fints_canon n : forall bs vs r,
+  wf_bytes bs -> read_fints n bs = Ok (vs, r) -> bs = flat_map enc_fint64 vs ++ r /\ length vs = n.
+Proof.
+  induction n as [|n IH]; intros bs vs r Hwf H; cbn [read_fints] in H.
+  - inversion H; subst. split; reflexivity.
+  - unfold bind in H. destruct (read_fint64 bs) as [[v r1]|] eqn:E1; [|discriminate H].
+    destruct (read_fints n r1) as [[vs' r2]|] eqn:E2; [|discriminate H].
+    inversion H; subst vs r. clear H.
+    pose proof (read_fint64_canon _ _ _ Hwf E1) as H1.
+    assert (W1 : wf_bytes r1) by (rewrite H1 in Hwf; apply wf_app in Hwf; tauto).
+    destruct (IH _ _ _ W1 E2) as [H2 HL]. cbn [flat_map length].
+    split; [|rewrite HL; reflexivity]. rewrite H1, H2, <- app_assoc. reflexivity.
+Qed.
+
+Lemma p_dims tg b vs r : wf_bytes b -> read_dims b = Ok (vs, r) -> tg ++ b = enc_dims_field tg vs ++ r.
+Proof.
+  intros Hwf. unfold read_dims, bind. destruct (read_bytes b) as [[m r']|] eqn:E; [|discriminate].
+  destruct (read_fints 5 m) as [[vs' rest]|] eqn:Ef; [|discriminate].
+  destruct (is_nil rest) eqn:En; cbn [negb]; [|discriminate].
+  destruct (dims_is_zero vs') eqn:Ez; [discriminate|]. intros H; inversion H; subst vs' r'. clear H.
+  destruct (read_bytes_wf _ _ _ Hwf E) as [Wm _].
+  destruct (read_fints_canon _ _ _ _ Wm Ef) as [Hm _].
+  destruct rest; [|discriminate En]. rewrite app_nil_r in Hm.
+  unfold enc_dims_field. rewrite Ez, <- Hm.
+  destruct (read_bytes_canon _ _ _ Hwf E) as [Hb _]. rewrite Hb, <- app_assoc. reflexivity.
+Qed.
+
+Lemma decode_result_canon bs r : wf_bytes bs -> decode_result bs = Ok r -> encode_result r = bs.
+Proof.
+  intros Hwf H. unfold decode_result in H.
+  step3 H ok m1 r1 E1. step3 H er m2 r2 E2. step3 H outs m3 r3 E3. step3 H units m4 r4 E4.
+  step3 H fee m5 r5 E5. step1 H u EL. destruct u. inversion H; subst r. clear H.
+  destruct (opt_field_canon _ _ _ false _ _ _ _ _ (enc_bool_field (tag 1 WT_VARINT)) (p_bool _) eq_refl Hwf E1) as [H1 W1].
+  destruct (opt_field_canon _ _ _ [] _ _ _ _ _ (enc_msg_field (tag 2 WT_LEN)) (p_bytes _) eq_refl W1 E2) as [H2 W2].
+  destruct (opt_field_canon _ _ _ [] _ _ _ _ _ (enc_repeated (tag 3 WT_LEN)) (p_repeated _) eq_refl W2 E3) as [H3 W3].
+  destruct (opt_field_canon _ _ _ dims_zero _ _ _ _ _ (enc_dims_field (tag 4 WT_LEN)) (p_dims _) eq_refl W3 E4) as [H4 W4].
+  destruct (opt_field_canon _ _ _ 0 _ _ _ _ _ (enc_fint_field (tag 5 WT_I64)) (p_fint64 _) eq_refl W4 E5) as [H5 W5].
+  apply leftover_ok in EL. subst.
+  unfold encode_result. cbn [rs_success rs_error rs_outputs rs_units rs_fee]. rewrite app_nil_r. reflexivity.
+Qed.
+
+Definition enc_result_entry (o : option result) : bytes :=
+  match o with None => [] | Some r => encode_result r end.
+
+Lemma decode_result_entries_canon es : forall os,
+  Forall wf_bytes es -> decode_result_entries es = Ok os -> map enc_result_entry os = es.
+Proof.
+  induction es as [|e es IH]; intros os Hwf H; cbn [decode_result_entries] in H.
+  - inversion H; subst. reflexivity.
+  - inversion Hwf as [|? ? He Hes]; subst.
+    step1 H o Eo. step1 H os' Eos. inversion H; subst os. clear H. cbn [map].
+    rewrite (IH _ Hes eq_refl). f_equal.
+    destruct (is_nil e) eqn:En.
+    + inversion Eo; subst o. destruct e; [reflexivity | discriminate En].
+    + step1 Eo r Er. inversion Eo; subst o. cbn [enc_result_entry].
+      apply decode_result_canon; assumption.
+Qed.
+
+Lemma decode_results_canon bs e : wf_bytes bs -> decode_results bs = Ok e -> encode_results e = bs.
+Proof.
+  intros Hwf H. unfold decode_results in H.
+  step3 H es m1 r1 E1. step1 H os Eo. step3 H pr m2 r2 E2. step3 H co m3 r3 E3. step1 H u EL. destruct u.
+  inversion H; subst e. clear H.
+  destruct (opt_field_canon _ _ _ [] _ _ _ _ _ (enc_repeated (tag 1 WT_LEN)) (p_repeated _) eq_refl Hwf E1) as [H1 W1].
+  destruct (opt_field_canon _ _ _ dims_zero _ _ _ _ _ (enc_dims_field (tag 2 WT_LEN)) (p_dims _) eq_refl W1 E2) as [H2 W2].
+  destruct (opt_field_canon _ _ _ dims_zero _ _ _ _ _ (enc_dims_field (tag 3 WT_LEN)) (p_dims _) eq_refl W2 E3) as [H3 W3].
+  apply leftover_ok in EL. subst r3.
+  assert (Hes : Forall wf_bytes es).
+  { apply (wf_enc_repeated_inv (tag 1 WT_LEN)). rewrite H1 in Hwf. apply wf_app in Hwf. tauto. }
+  unfold encode_results. cbn [er_results er_prices er_consumed].
+  fold enc_result_entry. rewrite (decode_result_entries_canon _ _ Hes Eo).
+  subst. rewrite app_nil_r. reflexivity.
+Qed.
+
+(* ---- concrete parsers: TypeParser, Transfer (linearcodec), the auth formats ------------------ *)
+
+Lemma be_enc_dec (l : bytes) : wf_bytes l -> be_enc (length l) (be_dec l) = l.
+Proof.
+  induction l as [|b l IH] using rev_ind; intros Hwf; [reflexivity|].
+  apply wf_app in Hwf. destruct Hwf as [Hl Hb]. inversion Hb as [|? ? Hb' _]; subst.
+  rewrite app_length. cbn [length]. rewrite Nat.add_1_r. cbn [be_enc]. rewrite be_dec_app.
+  assert (Hd : (be_dec l * 256 + b) / 256 = be_dec l).
+  { rewrite N.div_add_l by lia. rewrite N.div_small by exact Hb'. lia. }
+  assert (Hm : (be_dec l * 256 + b) mod 256 = b).
+  { rewrite N.add_comm, N.mod_add by lia. apply N.mod_small. exact Hb'. }
+  rewrite Hd, Hm, (IH Hl). reflexivity.
+Qed.
+
+Lemma blen_take n bs : n <= blen bs -> blen (take n bs) = n.
+Proof. intros H. unfold blen at 1. rewrite take_length by exact H. lia. Qed.
+
+Lemma blen_drop n bs : blen (drop n bs) = blen bs - n.
+Proof. unfold blen, drop. rewrite skipn_length. lia. Qed.
+
+Lemma wf_take n bs : wf_bytes bs -> wf_bytes (take n bs).
+Proof. apply wf_firstn. Qed.
+Lemma wf_drop n bs : wf_bytes bs -> wf_bytes (drop n bs).
+Proof. apply wf_skipn. Qed.
+
+(* UnmarshalTransfer accepts only Transfer.Bytes() of the value it returns *)
+Lemma parse_transfer_canon b t : wf_bytes b -> parse_transfer b = Some t -> transfer_bytes t = b.
+Proof.
+  intros Hwf H. unfold parse_transfer in H. destruct b as [|id p]; [discriminate H|].
+  inversion Hwf as [|? ? _ Wp]; subst.
+  destruct (N.eqb_spec id TransferID) as [->|]; cbn [negb] in H; [|discriminate H].
+  destruct (N.ltb_spec (blen p) AddressLen) as [|L1]; [discriminate H|].
+  set (p1 := drop AddressLen p) in *.
+  destruct (N.ltb_spec (blen p1) 8) as [|L2]; [discriminate H|].
+  set (p2 := drop 8 p1) in *.
+  destruct (N.ltb_spec (blen p2) 4) as [|L3]; [discriminate H|].
+  set (p3 := drop 4 p2) in *.
+  destruct (MaxInt32 <? be_dec (take 4 p2)); [discriminate H|].
+  destruct (N.ltb_spec (blen p3) (be_dec (take 4 p2))) as [|L4]; [discriminate H|].
+  destruct (N.eqb_spec (blen p3) (be_dec (take 4 p2))) as [L5|]; cbn [negb] in H; [|discriminate H].
+  destruct (MaxMemoSize <? be_dec (take 4 p2)); [discriminate H|].
+  inversion H; subst t. clear H. unfold transfer_bytes. cbn [tr_to tr_value tr_memo app].
+  f_equal. rewrite L5.
+  pose proof (take_length 8 p1 L2) as T8. change (N.to_nat 8) with 8%nat in T8.
+  pose proof (take_length 4 p2 L3) as T4. change (N.to_nat 4) with 4%nat in T4.
+  rewrite <- T8 at 1. rewrite be_enc_dec by (apply wf_take, wf_drop; exact Wp).
+  rewrite <- T4 at 1. rewrite be_enc_dec by (apply wf_take, wf_drop, wf_drop; exact Wp).
+  subst p3. rewrite take_drop. subst p2. rewrite take_drop. subst p1. apply take_drop.
+Qed.
+
+(* codec.TypeParser dispatches on the first byte and hands the whole slice to the decoder *)
+Lemma type_parser_canon {T} (bytes_of : T -> bytes) (reg : list (N * (bytes -> option T))) :
+  Forall (fun e => forall b a, wf_bytes b -> snd e b = Some a -> bytes_of a = b) reg ->
+  forall b a, wf_bytes b -> type_parser reg b = Some a -> bytes_of a = b.
+Proof.
+  intros Hreg b a Hwf H. unfold type_parser in H. destruct b as [|id p]; [discriminate H|].
+  destruct (lookup id reg) as [f|] eqn:El; [|discriminate H].
+  revert El. induction Hreg as [|[i g] reg' Hg _ IH]; cbn [lookup]; [discriminate|].
+  destruct (i =? id); [|exact IH]. intros E; inversion E; subst g. exact (Hg _ _ Hwf H).
+Qed.
+
+Lemma morpheus_action_canon b a : wf_bytes b -> morpheus_action_parser b = Some a -> transfer_bytes a = b.
+Proof.
+  unfold morpheus_action_parser. apply type_parser_canon.
+  constructor; [|constructor]. cbn [snd]. exact parse_transfer_canon.
+Qed.
+
+(* the auth formats: an auth is its byte string *)
+Lemma parse_fixed_auth_canon id size extra b a : parse_fixed_auth id size extra b = Some a -> a = b.
+Proof.
+  unfold parse_fixed_auth. destruct (negb (blen b =? size)); [discriminate|].
+  destruct b as [|i p]; [discriminate|]. destruct (negb (i =? id)); [discriminate|].
+  destruct (extra (i :: p)); [|discriminate]. intros H; inversion H; reflexivity.
+Qed.
+
+Definition auth_id_bytes (a : bytes) : bytes := a.
+
+Lemma morpheus_auth_canon bls_ok b a : wf_bytes b -> morpheus_auth_parser bls_ok b = Some a -> auth_id_bytes a = b.
+Proof.
+  unfold morpheus_auth_parser. apply (type_parser_canon auth_id_bytes).
+  repeat constructor; cbn [snd]; intros b' a' _ H'; exact (parse_fixed_auth_canon _ _ _ _ _ H').
+Qed.
+
+(* ---- packaging for Props/C15.v -------------------------------------------------------------- *)
+
+(* a parser is canonical when it accepts only the canonical bytes of the value it returns *)
+Definition canonical_parser {T} (parse : bytes -> option T) (bytes_of : T -> bytes) : Prop :=
+  forall b a, wf_bytes b -> parse b = Some a -> bytes_of a = b.
+
+Definition wf_bytesb (bs : bytes) : bool := forallb (fun b => b <? 256) bs.
+Lemma wf_bytesb_ok bs : wf_bytesb bs = true -> wf_bytes bs.
+Proof.
+  unfold wf_bytesb, wf_bytes. rewrite forallb_forall, Forall_forall.
+  intros H x Hx. apply N.ltb_lt. exact (H x Hx).
+Qed.
+
+(* ============================================================================================ *)
+(* ---- round trip: decode (encode m) = Ok m for valid m --------------------------------------- *)
+
+Definition hd_gt (k : N) (bs : bytes) : Prop := match bs with [] => True | b :: _ => k < b end.
+
+Lemma hd_gt_no_prefix k bs : hd_gt k bs -> has_prefix bs [k] = false.
+Proof.
+  destruct bs as [|b bs]; cbn [hd_gt has_prefix]; [reflexivity|].
+  intros H. destruct (N.eqb_spec b k); [lia | reflexivity].
+Qed.
+
+(* [F] is the encoding of the field with one-byte tag [t] holding [v]: either omitted (v is the default)
+   or the tag followed by a body from which [parse] reads v back, whatever follows (as long as what
+   follows does not start with a tag <= t) *)
+Definition field_rt {A} (t : N) (parse : bytes -> res (A * bytes)) (dflt : A) (F : bytes) (v : A) : Prop :=
+  (F = [] /\ v = dflt) \/
+  (exists body, F = t :: body /\ forall rest, hd_gt t rest -> parse (body ++ rest) = Ok (v, rest)).
+
+Lemma opt_field_rt {A} t f (parse : bytes -> res (A * bytes)) dflt minf F v rest :
+  field_rt t parse dflt F v -> hd_gt t rest ->
+  exists m, opt_field [t] f parse dflt minf (F ++ rest) = Ok (v, m, rest).
+Proof.
+  intros [[-> ->] | (body & -> & Hp)] Hr; unfold opt_field.
+  - cbn [app]. rewrite (hd_gt_no_prefix _ _ Hr). eexists; reflexivity.
+  - cbn [app has_prefix]. rewrite N.eqb_refl. cbn [andb length skipn].
+    rewrite (Hp _ Hr). cbn [bind]. eexists; reflexivity.
+Qed.
+
+Lemma field_rt_hd {A} k t (parse : bytes -> res (A * bytes)) dflt F v rest :
+  field_rt t parse dflt F v -> k < t -> hd_gt k rest -> hd_gt k (F ++ rest).
+Proof.
+  intros [[-> _] | (body & -> & _)] Hk Hr; cbn [app hd_gt]; assumption.
+Qed.
+
+(* ---- primitives ---- *)
+
+Lemma read_uvar_enc bits n rest :
+  bits <= 64 -> n < 2 ^ bits -> read_uvar bits (uvarint_enc n ++ rest) = Ok (n, rest).
+Proof. intros Hb Hn. unfold read_uvar. rewrite read_uint_enc by assumption. reflexivity. Qed.
+
+Lemma firstn_len_app (m rest : bytes) : firstn (length m) (m ++ rest) = m.
+Proof.
+  replace (length m) with (length m + 0)%nat by lia. rewrite firstn_app_2. cbn [firstn]. apply app_nil_r.
+Qed.
+Lemma skipn_len_app (m rest : bytes) : skipn (length m) (m ++ rest) = rest.
+Proof. rewrite skipn_app, skipn_all, Nat.sub_diag. reflexivity. Qed.
+Lemma take_blen_app (m rest : bytes) : take (blen m) (m ++ rest) = m.
+Proof. unfold take, blen. rewrite Nat2N.id. apply firstn_len_app. Qed.
+Lemma drop_blen_app (m rest : bytes) : drop (blen m) (m ++ rest) = rest.
+Proof. unfold drop, blen. rewrite Nat2N.id. apply skipn_len_app. Qed.
+Lemma blen_app_ltb (m rest : bytes) : (blen (m ++ rest) <? blen m) = false.
+Proof. apply N.ltb_ge. rewrite blen_app. lia. Qed.
+
+Lemma read_bytes_enc b rest : blen b < 2 ^ 64 -> read_bytes (enc_bytes b ++ rest) = Ok (b, rest).
+Proof.
+  intros Hb. unfold read_bytes, enc_bytes. rewrite <- app_assoc, read_uvar_enc by (assumption || lia).
+  cbn [bind]. rewrite blen_app_ltb, take_blen_app, drop_blen_app. reflexivity.
+Qed.
+
+Lemma le_enc_length n : forall v, length (le_enc n v) = n.
+Proof. induction n as [|n IH]; intros v; cbn [le_enc length]; [reflexivity | rewrite IH; reflexivity]. Qed.
+
+Lemma le_dec_enc n : forall v, le_dec (le_enc n v) = v mod 256 ^ N.of_nat n.
+Proof.
+  induction n as [|n IH]; intros v.
+  - cbn. rewrite N.mod_1_r. reflexivity.
+  - cbn [le_enc le_dec]. rewrite IH.
+    replace (N.of_nat (S n)) with (N.succ (N.of_nat n)) by lia.
+    rewrite N.pow_succ_r'.
+    assert (Hp : 256 ^ N.of_nat n <> 0) by (apply N.pow_nonzero; lia).
+    rewrite N.mod_mul_r by lia. lia.
+Qed.
+
+Lemma read_fint64_enc v rest : v < 2 ^ 64 -> read_fint64 (enc_fint64 v ++ rest) = Ok (v, rest).
+Proof.
+  intros Hv. unfold read_fint64, enc_fint64.
+  assert (HL : blen (le_enc 8 v) = 8) by (unfold blen; rewrite le_enc_length; reflexivity).
+  destruct (N.ltb_spec (blen (le_enc 8 v ++ rest)) 8) as [Hlt|_]; [rewrite blen_app in Hlt; lia|].
+  rewrite <- HL at 1 2. rewrite take_blen_app, drop_blen_app, le_dec_enc.
+  change (256 ^ N.of_nat 8) with (2 ^ 64). rewrite N.mod_small by exact Hv. reflexivity.
+Qed.
+
+Definition int64_ok (z : Z) : bool := ((-9223372036854775808 <=? z) && (z <? 9223372036854775808))%Z.
+
+Lemma zigzag_fits z : int64_ok z = true -> zigzag z < 2 ^ 64.
+Proof.
+  unfold int64_ok. rewrite andb_true_iff, Z.leb_le, Z.ltb_lt. intros [H1 H2].
+  change (2 ^ 64) with 18446744073709551616. unfold zigzag. destruct (Z.leb_spec 0 z); lia.
+Qed.
+
+(* ---- field kinds ---- *)
+
+Lemma frt_int t z : int64_ok z = true -> field_rt t read_int64_nz 0%Z (enc_int_field [t] z) z.
+Proof.
+  intros Hz. unfold enc_int_field. destruct (Z.eqb_spec z 0) as [->|Hnz]; [left; split; reflexivity|].
+  right. exists (enc_int64 z). split; [reflexivity|]. intros rest _.
+  unfold read_int64_nz, read_int64, enc_int64.
+  rewrite read_uvar_enc by (lia || apply zigzag_fits; exact Hz). cbn [bind].
+  rewrite unzigzag_zigzag. destruct (Z.eqb_spec z 0); [contradiction | reflexivity].
+Qed.
+
+Lemma frt_uint t v : v < 2 ^ 64 -> field_rt t read_uint64_nz 0 (enc_uint_field [t] v) v.
+Proof.
+  intros Hv. unfold enc_uint_field. destruct (N.eqb_spec v 0) as [->|Hnz]; [left; split; reflexivity|].
+  right. exists (enc_uint v). split; [reflexivity|]. intros rest _.
+  unfold read_uint64_nz, enc_uint. rewrite read_uvar_enc by (lia || exact Hv). cbn [bind].
+  destruct (N.eqb_spec v 0); [contradiction | reflexivity].
+Qed.
+
+Lemma frt_fint t v : v < 2 ^ 64 -> field_rt t read_fint64_nz 0 (enc_fint_field [t] v) v.
+Proof.
+  intros Hv. unfold enc_fint_field. destruct (N.eqb_spec v 0) as [->|Hnz]; [left; split; reflexivity|].
+  right. exists (enc_fint64 v). split; [reflexivity|]. intros rest _.
+  unfold read_fint64_nz. rewrite read_fint64_enc by exact Hv. cbn [bind].
+  destruct (N.eqb_spec v 0); [contradiction | reflexivity].
+Qed.
+
+Lemma all_zero_zeros (v : bytes) : all_zero v = true -> v = zeros (length v).
+Proof.
+  induction v as [|b v IH]; [reflexivity|]. cbn [all_zero forallb length zeros repeat].
+  rewrite andb_true_iff, N.eqb_eq. intros [-> H]. f_equal. apply IH. exact H.
+Qed.
+
+Lemma frt_fixed t (n : nat) v : length v = n -> N.of_nat n < 2 ^ 64 ->
+  field_rt t (read_fixed_bytes (N.of_nat n)) (zeros n) (enc_fixed_field [t] v) v.
+Proof.
+  intros HL Hn. unfold enc_fixed_field. destruct (all_zero v) eqn:Ez.
+  - left. split; [reflexivity|]. rewrite <- HL. apply all_zero_zeros. exact Ez.
+  - right. exists (enc_bytes v). split; [reflexivity|]. intros rest _.
+    assert (Hb : blen v = N.of_nat n) by (unfold blen; rewrite HL; reflexivity).
+    unfold read_fixed_bytes, enc_bytes. rewrite <- app_assoc, read_uvar_enc by (lia || rewrite Hb; exact Hn).
+    cbn [bind]. rewrite Hb, N.eqb_refl. cbn [negb]. rewrite <- Hb.
+    rewrite blen_app_ltb, take_blen_app, drop_blen_app, Ez. reflexivity.
+Qed.
+
+Lemma frt_bytes t b : blen b < 2 ^ 64 -> field_rt t read_bytes_nz [] (enc_msg_field [t] b) b.
+Proof.
+  intros Hb. unfold enc_msg_field. destruct b as [|x b']; [left; split; reflexivity|].
+  right. exists (enc_bytes (x :: b')). split; [reflexivity|]. intros rest _.
+  unfold read_bytes_nz. rewrite read_bytes_enc by exact Hb. reflexivity.
+Qed.
+
+Lemma frt_msg {A} t (dec : bytes -> res A) (enc : A -> bytes) dflt a :
+  (enc a = [] -> a = dflt) -> blen (enc a) < 2 ^ 64 -> dec (enc a) = Ok a ->
+  field_rt t (read_msg dec) dflt (enc_msg_field [t] (enc a)) a.
+Proof.
+  intros Hd Hb Hdec. unfold enc_msg_field. destruct (enc a) as [|x m] eqn:Em.
+  - left. split; [reflexivity | apply Hd; reflexivity].
+  - right. exists (enc_bytes (x :: m)). split; [reflexivity|]. intros rest _.
+    unfold read_msg. rewrite read_bytes_enc by exact Hb. cbn [bind is_nil]. rewrite Hdec. reflexivity.
+Qed.
+
+Definition small_list (es : list bytes) : Prop := Forall (fun e => blen e < 2 ^ 64) es.
+
+Lemma read_more_enc t : forall es fuel rest,
+  hd_gt t rest -> (length es <= fuel)%nat -> small_list es ->
+  read_more fuel [t] (enc_repeated [t] es ++ rest) = Ok (es, rest).
+Proof.
+  induction es as [|e es IH]; intros fuel rest Hr Hf Hs.
+  - cbn [enc_repeated flat_map app]. destruct fuel; cbn [read_more]; [reflexivity|].
+    rewrite (hd_gt_no_prefix _ _ Hr). reflexivity.
+  - destruct fuel as [|fuel]; [cbn [length] in Hf; lia|]. inversion Hs as [|? ? He Hes]; subst.
+    cbn [enc_repeated flat_map]. fold (enc_repeated [t] es). rewrite <- !app_assoc.
+    cbn [app read_more has_prefix]. rewrite N.eqb_refl. cbn [andb length skipn].
+    rewrite read_bytes_enc by exact He. cbn [bind].
+    rewrite (IH fuel rest Hr ltac:(cbn [length] in Hf; lia) Hes). reflexivity.
+Qed.
+
+Lemma enc_repeated_length t es : (length es <= length (enc_repeated [t] es))%nat.
+Proof.
+  induction es as [|e es IH]; [reflexivity|]. cbn [enc_repeated flat_map length].
+  fold (enc_repeated [t] es). rewrite app_length. cbn [app length]. lia.
+Qed.
+
+Lemma frt_repeated t es : small_list es -> field_rt t (read_repeated [t]) [] (enc_repeated [t] es) es.
+Proof.
+  intros Hs. destruct es as [|e es]; [left; split; reflexivity|]. inversion Hs as [|? ? He Hes]; subst.
+  right. exists (enc_bytes e ++ enc_repeated [t] es). split; [reflexivity|]. intros rest Hr.
+  unfold read_repeated. rewrite <- app_assoc, read_bytes_enc by exact He. cbn [bind].
+  rewrite read_more_enc; [reflexivity | exact Hr | | exact Hes].
+  rewrite app_length. pose proof (enc_repeated_length t es). lia.
+Qed.
+
+Lemma frt_bool t b : field_rt t read_bool_nz false (enc_bool_field [t] b) b.
+Proof.
+  destruct b; [|left; split; reflexivity]. right. exists [1]. split; [reflexivity|]. intros rest _. reflexivity.
+Qed.
+
+Definition dims_ok (d : list N) : bool := (length d =? 5)%nat && forallb (fun v => v <? 2 ^ 64) d.
+
+Lemma read_fints_enc d : forall rest, Forall (fun v => v < 2 ^ 64) d ->
+  read_fints (length d) (flat_map enc_fint64 d ++ rest) = Ok (d, rest).
+Proof.
+  induction d as [|v d IH]; intros rest Hd; [reflexivity|]. inversion Hd as [|? ? Hv Hd']; subst.
+  cbn [length read_fints flat_map]. rewrite <- app_assoc, read_fint64_enc by exact Hv. cbn [bind].
+  rewrite (IH rest Hd'). reflexivity.
+Qed.
+
+Lemma dims_is_zero_eq d : length d = 5%nat -> dims_is_zero d = true -> d = dims_zero.
+Proof.
+  intros HL Hz. do 5 (destruct d as [|? d]; [discriminate HL|]). destruct d; [|discriminate HL].
+  unfold dims_is_zero in Hz. cbn [forallb] in Hz. rewrite !andb_true_iff, !N.eqb_eq in Hz.
+  destruct Hz as (-> & -> & -> & -> & -> & _). reflexivity.
+Qed.
+
+Lemma frt_dims t d : dims_ok d = true -> field_rt t read_dims dims_zero (enc_dims_field [t] d) d.
+Proof.
+  unfold dims_ok. rewrite andb_true_iff, Nat.eqb_eq, forallb_forall. intros [HL Hall].
+  assert (Hd : Forall (fun v => v < 2 ^ 64) d).
+  { apply Forall_forall. intros x Hx. apply N.ltb_lt. exact (Hall x Hx). }
+  unfold enc_dims_field. destruct (dims_is_zero d) eqn:Ez.
+  - left. split; [reflexivity | apply dims_is_zero_eq; assumption].
+  - right. exists (enc_bytes (flat_map enc_fint64 d)). split; [reflexivity|]. intros rest _.
+    assert (Hlen : blen (flat_map enc_fint64 d) < 2 ^ 64).
+    { do 5 (destruct d as [|? d]; [discriminate HL|]). destruct d; [|discriminate HL].
+      unfold blen. cbn [flat_map]. rewrite !app_length. unfold enc_fint64. rewrite !le_enc_length.
+      cbn [length]. change (2 ^ 64) with 18446744073709551616. lia. }
+    unfold read_dims. rewrite read_bytes_enc by exact Hlen. cbn [bind].
+    rewrite <- (app_nil_r (flat_map enc_fint64 d)). rewrite <- HL at 1.
+    rewrite read_fints_enc by exact Hd. cbn [bind is_nil negb]. rewrite Ez. reflexivity.
+Qed.
+
+Ltac hd_solve := repeat (eapply field_rt_hd; [eassumption | lia |]); exact I.
+Ltac rt_field R m E :=
+  match goal with
+  | |- context [opt_field [?t] ?f ?p ?d ?mf (?F ++ ?rest)] =>
+      destruct (opt_field_rt t f p d mf F _ rest R ltac:(hd_solve)) as [m E]; rewrite E; cbn [bind]; clear E
+  end.
+
+(* ---- Base ---- *)
+
+Definition valid_base (b : base) : bool :=
+  int64_ok (b_ts b) && (length (b_chain b) =? 32)%nat && (b_fee b <? 2 ^ 64).
+
+Lemma encode_base_fields b :
+  encode_base b = enc_int_field [8] (b_ts b) ++ enc_fixed_field [18] (b_chain b) ++ enc_fint_field [25] (b_fee b) ++ [].
+Proof. unfold encode_base. rewrite app_nil_r. reflexivity. Qed.
+
+Lemma decode_base_rt b : valid_base b = true -> decode_base (encode_base b) = Ok b.
+Proof.
+  unfold valid_base. rewrite !andb_true_iff, Nat.eqb_eq, N.ltb_lt. intros [[Hts Hch] Hfee].
+  pose proof (frt_int 8 _ Hts) as R1.
+  pose proof (frt_fixed 18 32 _ Hch ltac:(cbn; lia)) as R2.
+  pose proof (frt_fint 25 _ Hfee) as R3.
+  rewrite encode_base_fields. unfold decode_base.
+  change (tag 1 WT_VARINT) with [8]. change (tag 2 WT_LEN) with [18]. change (tag 3 WT_I64) with [25].
+  rt_field R1 m1 E1. rt_field R2 m2 E2. rt_field R3 m3 E3. cbn [leftover bind]. destruct b; reflexivity.
+Qed.
+
+Lemma smallb_list es : forallb (fun e => blen e <? 2 ^ 64) es = true -> small_list es.
+Proof.
+  rewrite forallb_forall. intros H. apply Forall_forall. intros x Hx. apply N.ltb_lt. exact (H x Hx).
+Qed.
+
+(* ---- Result / ExecutionResults ---- *)
+
+Definition valid_result (r : result) : bool :=
+  (blen (rs_error r) <? 2 ^ 64) && forallb (fun e => blen e <? 2 ^ 64) (rs_outputs r) &&
+  dims_ok (rs_units r) && (rs_fee r <? 2 ^ 64).
+
+Lemma encode_result_fields r :
+  encode_result r = enc_bool_field [8] (rs_success r) ++ enc_msg_field [18] (rs_error r) ++
+    enc_repeated [26] (rs_outputs r) ++ enc_dims_field [34] (rs_units r) ++ enc_fint_field [41] (rs_fee r) ++ [].
+Proof. unfold encode_result. rewrite app_nil_r. destruct (rs_success r); reflexivity. Qed.
+
+Lemma decode_result_rt r : valid_result r = true -> decode_result (encode_result r) = Ok r.
+Proof.
+  unfold valid_result. rewrite !andb_true_iff, !N.ltb_lt. intros [[[Her Hout] Hun] Hfee].
+  pose proof (frt_bool 8 (rs_success r)) as R1.
+  pose proof (frt_bytes 18 _ Her) as R2.
+  pose proof (frt_repeated 26 _ (smallb_list _ Hout)) as R3.
+  pose proof (frt_dims 34 _ Hun) as R4.
+  pose proof (frt_fint 41 _ Hfee) as R5.
+  rewrite encode_result_fields. unfold decode_result.
+  change (tag 1 WT_VARINT) with [8]. change (tag 2 WT_LEN) with [18]. change (tag 3 WT_LEN) with [26].
+  change (tag 4 WT_LEN) with [34]. change (tag 5 WT_I64) with [41].
+  rt_field R1 m1 E1. rt_field R2 m2 E2. rt_field R3 m3 E3. rt_field R4 m4 E4. rt_field R5 m5 E5.
+  cbn [leftover bind]. destruct r; reflexivity.
+Qed.
+
+(* a present entry must not be the all-zero Result: canoto writes it as an empty entry, which reads back as nil *)
+Definition valid_entry (o : option result) : bool :=
+  match o with
+  | None => true
+  | Some r => valid_result r && negb (is_nil (encode_result r)) && (blen (encode_result r) <? 2 ^ 64)
+  end.
+
+Definition valid_results (e : exec_results) : bool :=
+  forallb valid_entry (er_results e) && dims_ok (er_prices e) && dims_ok (er_consumed e).
+
+Lemma decode_result_entries_rt os : forallb valid_entry os = true ->
+  decode_result_entries (map enc_result_entry os) = Ok os /\ small_list (map enc_result_entry os).
+Proof.
+  induction os as [|o os IH]; intros H; [split; [reflexivity | constructor]|].
+  cbn [forallb] in H. apply andb_true_iff in H. destruct H as [Ho Hos].
+  destruct (IH Hos) as [IH1 IH2]. cbn [map decode_result_entries]. rewrite IH1. split.
+  - destruct o as [r|]; cbn [enc_result_entry valid_entry] in *; [|reflexivity].
+    rewrite !andb_true_iff in Ho. destruct Ho as [[Hv Hn] _]. apply negb_true_iff in Hn. rewrite Hn.
+    rewrite (decode_result_rt _ Hv). reflexivity.
+  - constructor; [|exact IH2]. destruct o as [r|]; cbn [enc_result_entry valid_entry] in *.
+    + rewrite !andb_true_iff in Ho. destruct Ho as [_ Hl]. apply N.ltb_lt. exact Hl.
+    + cbn. lia.
+Qed.
+
+Lemma encode_results_fields e :
+  encode_results e = enc_repeated [10] (map enc_result_entry (er_results e)) ++
+    enc_dims_field [18] (er_prices e) ++ enc_dims_field [26] (er_consumed e) ++ [].
+Proof. unfold encode_results. rewrite app_nil_r. reflexivity. Qed.
+
+Lemma decode_results_rt e : valid_results e = true -> decode_results (encode_results e) = Ok e.
+Proof.
+  unfold valid_results. rewrite !andb_true_iff. intros [[Hen Hp] Hc].
+  destruct (decode_result_entries_rt _ Hen) as [Hd Hs].
+  pose proof (frt_repeated 10 _ Hs) as R1.
+  pose proof (frt_dims 18 _ Hp) as R2.
+  pose proof (frt_dims 26 _ Hc) as R3.
+  rewrite encode_results_fields. unfold decode_results.
+  change (tag 1 WT_LEN) with [10]. change (tag 2 WT_LEN) with [18]. change (tag 3 WT_LEN) with [26].
+  rt_field R1 m1 E1. rewrite Hd. cbn [bind]. rt_field R2 m2 E2. rt_field R3 m3 E3.
+  cbn [leftover bind]. destruct e; reflexivity.
+Qed.
+
+(* ---- SerializeTx ---- *)
+
+Lemma uvarint_enc_fuel_length f : forall n, (length (uvarint_enc_fuel f n) <= S f)%nat.
+Proof.
+  induction f as [|f IH]; intros n; cbn [uvarint_enc_fuel]; [cbn; lia|].
+  destruct (n <? 128); cbn [length]; [lia|]. specialize (IH (n / 128)). lia.
+Qed.
+
+Lemma uvarint_enc_short n : n < 2 ^ 64 -> blen (uvarint_enc n) <= 65.
+Proof.
+  intros Hn. unfold blen, uvarint_enc.
+  pose proof (uvarint_enc_fuel_length (S (N.to_nat (N.log2 n))) n) as HL.
+  assert (N.log2 n < 64).
+  { destruct (N.eqb_spec n 0) as [->|Hnz]; [cbn; lia|]. apply N.log2_lt_pow2; lia. }
+  lia.
+Qed.
+
+Lemma encode_base_small b : valid_base b = true -> blen (encode_base b) < 2 ^ 64.
+Proof.
+  unfold valid_base. rewrite !andb_true_iff, Nat.eqb_eq, N.ltb_lt. intros [[Hts Hch] Hfee].
+  rewrite encode_base_fields, !blen_app.
+  assert (H1 : blen (enc_int_field [8] (b_ts b)) <= 66).
+  { unfold enc_int_field. destruct (b_ts b =? 0)%Z; [cbn; lia|]. rewrite blen_app.
+    pose proof (uvarint_enc_short _ (zigzag_fits _ Hts)). unfold enc_int64. change (blen [8]) with 1. lia. }
+  assert (H2 : blen (enc_fixed_field [18] (b_chain b)) <= 99).
+  { unfold enc_fixed_field. destruct (all_zero (b_chain b)); [cbn; lia|]. unfold enc_bytes. rewrite !blen_app.
+    assert (Hb : blen (b_chain b) = 32) by (unfold blen; rewrite Hch; reflexivity).
+    pose proof (uvarint_enc_short (blen (b_chain b)) ltac:(rewrite Hb; cbn; lia)).
+    change (blen [18]) with 1. lia. }
+  assert (H3 : blen (enc_fint_field [25] (b_fee b)) <= 9).
+  { unfold enc_fint_field. destruct (b_fee b =? 0); [cbn; lia|]. rewrite blen_app. unfold enc_fint64.
+    change (blen [25]) with 1. unfold blen. rewrite le_enc_length. lia. }
+  change (blen []) with 0. change (2 ^ 64) with 18446744073709551616. lia.
+Qed.
+
+Lemma encode_base_nil b : valid_base b = true -> encode_base b = [] -> b = base_zero.
+Proof.
+  unfold valid_base. rewrite !andb_true_iff, Nat.eqb_eq. intros [[_ Hch] _] He.
+  unfold encode_base in He. destruct b as [ts ch fee]. cbn [b_ts b_chain b_fee] in *.
+  destruct (Z.eqb_spec ts 0) as [->|]; [|discriminate He].
+  destruct (all_zero ch) eqn:Ez; [|discriminate He].
+  destruct (N.eqb_spec fee 0) as [->|]; [|discriminate He].
+  unfold base_zero. f_equal. rewrite (all_zero_zeros _ Ez), Hch. reflexivity.
+Qed.
+
+Definition valid_stx (s : stx) : bool :=
+  valid_base (s_base s) && forallb (fun e => blen e <? 2 ^ 64) (s_actions s) && (blen (s_auth s) <? 2 ^ 64).
+
+Lemma encode_stx_fields s :
+  encode_stx s = enc_msg_field [10] (encode_base (s_base s)) ++ enc_repeated [18] (s_actions s) ++
+    enc_msg_field [26] (s_auth s) ++ [].
+Proof. unfold encode_stx. rewrite app_nil_r. reflexivity. Qed.
+
+Lemma decode_stx_rt s : valid_stx s = true -> decode_stx (encode_stx s) = Ok s.
+Proof.
+  unfold valid_stx. rewrite !andb_true_iff, N.ltb_lt. intros [[Hb Ha] Hu].
+  pose proof (frt_msg 10 decode_base encode_base base_zero (s_base s)
+                (encode_base_nil _ Hb) (encode_base_small _ Hb) (decode_base_rt _ Hb)) as R1.
+  pose proof (frt_repeated 18 _ (smallb_list _ Ha)) as R2.
+  pose proof (frt_bytes 26 _ Hu) as R3.
+  rewrite encode_stx_fields. unfold decode_stx.
+  change (tag 1 WT_LEN) with [10]. change (tag 2 WT_LEN) with [18]. change (tag 3 WT_LEN) with [26].
+  rt_field R1 m1 E1. rt_field R2 m2 E2. rt_field R3 m3 E3.
+  cbn [leftover bind]. destruct s; reflexivity.
+Qed.
+
+(* ---- Transaction, batch, block ---- *)
+
+Section TxRoundTrip.
+  Variables (A U : Type).
+  Variable parse_action : bytes -> option A.
+  Variable action_bytes : A -> bytes.
+  Variable parse_auth : bytes -> option U.
+  Variable auth_bytes : U -> bytes.
+
+  Notation dec_tx := (decode_tx A U parse_action parse_auth).
+  Notation enc_tx := (encode_tx A U action_bytes auth_bytes).
+  Notation unsigned := (unsigned_of A action_bytes).
+
+  (* a structured transaction that can be built and parsed back: the base is in range, the parsers read
+     back what Bytes() writes, and no component is 2^64 bytes long *)
+  Definition valid_tx_parts (b : base) (acts : list A) (au : U) : Prop :=
+    valid_base b = true /\
+    Forall (fun a => parse_action (action_bytes a) = Some a /\ blen (action_bytes a) < 2 ^ 64) acts /\
+    parse_auth (auth_bytes au) = Some au /\ blen (auth_bytes au) < 2 ^ 64.
+
+  Lemma parse_actions_rt acts :
+    Forall (fun a => parse_action (action_bytes a) = Some a /\ blen (action_bytes a) < 2 ^ 64) acts ->
+    parse_actions A parse_action (map action_bytes acts) = Ok acts /\
+    forallb (fun e => blen e <? 2 ^ 64) (map action_bytes acts) = true.
+  Proof.
+    induction 1 as [|a acts [Hp Hl] _ [IH1 IH2]]; [split; reflexivity|].
+    cbn [map parse_actions forallb]. rewrite Hp, IH1, IH2. cbn [bind]. split; [reflexivity|].
+    apply andb_true_iff. split; [apply N.ltb_lt; exact Hl | reflexivity].
+  Qed.
+
+  Lemma blen_app_ltb_r (a b : bytes) : (blen (a ++ b) <? blen b) = false.
+  Proof. apply N.ltb_ge. rewrite blen_app. lia. Qed.
+
+  Lemma decode_tx_rt b acts au : valid_tx_parts b acts au ->
+    dec_tx (enc_tx b acts au) = Ok (mkTxm b acts au (unsigned b acts) (enc_tx b acts au)).
+  Proof.
+    intros (Hb & Ha & Hu & Hul). destruct (parse_actions_rt _ Ha) as [Hpa Hsm].
+    unfold decode_tx, encode_tx.
+    rewrite decode_stx_rt.
+    2:{ unfold valid_stx. cbn [s_base s_actions s_auth]. rewrite Hb, Hsm. cbn [andb]. apply N.ltb_lt. exact Hul. }
+    cbn [bind s_base s_actions s_auth]. rewrite Hpa. cbn [bind]. rewrite Hu.
+    unfold unsigned_of, encode_stx. cbn [s_base s_actions s_auth].
+    set (F1 := enc_msg_field (tag 1 WT_LEN) (encode_base b)).
+    set (F2 := enc_repeated (tag 2 WT_LEN) (map action_bytes acts)).
+    change (enc_msg_field (tag 3 WT_LEN) []) with (@nil N).
+    destruct (auth_bytes au) as [|x l] eqn:Eau; cbn [is_nil].
+    - change (enc_msg_field (tag 3 WT_LEN) []) with (@nil N). reflexivity.
+    - fold (auth_suffix (x :: l)). rewrite auth_suffix_len.
+      change (enc_msg_field (tag 3 WT_LEN) (x :: l)) with (tag 3 WT_LEN ++ enc_bytes (x :: l)).
+      set (F3 := tag 3 WT_LEN ++ enc_bytes (x :: l)).
+      rewrite app_nil_r, (app_assoc F1 F2 F3). rewrite blen_app_ltb_r, take_app_exact. reflexivity.
+  Qed.
+
+  (* entries: transactions that carry well-formed cached bytes *)
+  Definition cached_ok (t : tx A U) : Prop :=
+    dec_tx (x_bytes t) = Ok t /\ x_bytes t <> [] /\ blen (x_bytes t) < 2 ^ 64.
+
+  Lemma decode_entries_rt ts : Forall cached_ok ts ->
+    decode_entries A U parse_action parse_auth (map x_bytes ts) = Ok (map Some ts) /\
+    no_nil A U (map Some ts) = Ok ts /\ small_list (map x_bytes ts).
+  Proof.
+    induction 1 as [|t ts (Hd & Hn & Hl) _ (IH1 & IH2 & IH3)]; [repeat split; constructor|].
+    cbn [map decode_entries no_nil]. rewrite IH1, IH2.
+    destruct (x_bytes t) as [|x l] eqn:Ex; [contradiction|]. cbn [is_nil]. rewrite Hd. cbn [bind].
+    repeat split. constructor; assumption.
+  Qed.
+
+  Lemma decode_batch_rt ts : Forall cached_ok ts ->
+    decode_batch A U parse_action parse_auth (encode_batch A U ts) = Ok ts.
+  Proof.
+    intros H. destruct (decode_entries_rt _ H) as (Hd & Hn & Hs).
+    pose proof (frt_repeated 10 _ Hs) as R1.
+    unfold decode_batch, encode_batch. change (tag 1 WT_LEN) with [10].
+    rewrite <- (app_nil_r (enc_repeated [10] (map x_bytes ts))).
+    rt_field R1 m1 E1. rewrite Hd. cbn [bind leftover]. exact Hn.
+  Qed.
+
+  Definition valid_ctx (c : option N) : bool :=
+    match c with None => true | Some h => negb (h =? 0) && (h <? 2 ^ 64) end.
+
+  Lemma decode_ctx_rt h : h <> 0 -> h < 2 ^ 64 -> decode_ctx (encode_ctx (Some h)) = Ok (Some h).
+  Proof.
+    intros Hnz Hh. pose proof (frt_uint 8 _ Hh) as R1.
+    unfold decode_ctx, encode_ctx. change (tag 1 WT_VARINT) with [8].
+    fold (enc_uint_field [8] h). rewrite <- (app_nil_r (enc_uint_field [8] h)).
+    rt_field R1 m1 E1. reflexivity.
+  Qed.
+
+  Lemma frt_ctx t c : valid_ctx c = true ->
+    field_rt t (read_msg decode_ctx) None (enc_msg_field [t] (encode_ctx c)) c.
+  Proof.
+    intros Hv. destruct c as [h|]; [|left; split; reflexivity].
+    cbn [valid_ctx] in Hv. apply andb_true_iff in Hv. destruct Hv as [Hnz Hh].
+    apply negb_true_iff, N.eqb_neq in Hnz. apply N.ltb_lt in Hh.
+    apply (frt_msg t decode_ctx encode_ctx None (Some h)).
+    - cbn [encode_ctx]. destruct (N.eqb_spec h 0); [contradiction | discriminate].
+    - cbn [encode_ctx]. destruct (N.eqb_spec h 0); [contradiction|]. rewrite blen_app.
+      pose proof (uvarint_enc_short h Hh). unfold enc_uint. change (blen (tag 1 WT_VARINT)) with 1.
+      change (2 ^ 64) with 18446744073709551616. lia.
+    - apply decode_ctx_rt; assumption.
+  Qed.
+
+  Definition valid_block_parts (prnt : bytes) (ts h : N) (ctx : option N) (txs : list (tx A U)) (root : bytes) : Prop :=
+    length prnt = 32%nat /\ ts < 2 ^ 64 /\ h < 2 ^ 64 /\ valid_ctx ctx = true /\ Forall cached_ok txs /\
+    length root = 32%nat.
+
+  Lemma decode_block_rt prnt ts h ctx txs root : valid_block_parts prnt ts h ctx txs root ->
+    decode_block A U parse_action parse_auth (encode_block A U prnt ts h ctx txs root) =
+      Ok (mkBlock prnt ts h ctx txs root (encode_block A U prnt ts h ctx txs root)).
+  Proof.
+    intros (Hp & Hts & Hh & Hc & Htx & Hr). destruct (decode_entries_rt _ Htx) as (Hd & Hn & Hs).
+    pose proof (frt_fixed 10 32 _ Hp ltac:(cbn; lia)) as R1.
+    pose proof (frt_fint 17 _ Hts) as R2.
+    pose proof (frt_fint 25 _ Hh) as R3.
+    pose proof (frt_ctx 34 _ Hc) as R4.
+    pose proof (frt_repeated 42 _ Hs) as R5.
+    pose proof (frt_fixed 50 32 _ Hr ltac:(cbn; lia)) as R6.
+    unfold decode_block. set (bs := encode_block A U prnt ts h ctx txs root) at 2.
+    unfold encode_block.
+    change (tag 1 WT_LEN) with [10]. change (tag 2 WT_I64) with [17]. change (tag 3 WT_I64) with [25].
+    change (tag 4 WT_LEN) with [34]. change (tag 5 WT_LEN) with [42]. change (tag 6 WT_LEN) with [50].
+    rewrite <- (app_nil_r (enc_fixed_field [50] root)).
+    rt_field R1 m1 E1. rt_field R2 m2 E2. rt_field R3 m3 E3. rt_field R4 m4 E4. rt_field R5 m5 E5.
+    rewrite Hd. cbn [bind]. rt_field R6 m6 E6. cbn [leftover bind]. rewrite Hn. cbn [bind].
+    subst bs. unfold encode_block. rewrite app_nil_r. reflexivity.
+  Qed.
+End TxRoundTrip.
+
+(* ---- the MorpheusVM parsers read back what Bytes() writes ---- *)
+
+Definition valid_transfer (t : transfer) : bool :=
+  (length (tr_to t) =? 33)%nat && (tr_value t <? 2 ^ 64) && (blen (tr_memo t) <=? 256).
+
+Lemma take_n_app n (a rest : bytes) : blen a = n -> take n (a ++ rest) = a.
+Proof. intros <-. apply take_blen_app. Qed.
+Lemma drop_n_app n (a rest : bytes) : blen a = n -> drop n (a ++ rest) = rest.
+Proof. intros <-. apply drop_blen_app. Qed.
+Lemma ltb_n_app n (a rest : bytes) : blen a = n -> (blen (a ++ rest) <? n) = false.
+Proof. intros <-. apply blen_app_ltb. Qed.
+
+Lemma parse_transfer_rt t : valid_transfer t = true -> parse_transfer (transfer_bytes t) = Some t.
+Proof.
+  unfold valid_transfer. rewrite !andb_true_iff, Nat.eqb_eq, N.ltb_lt, N.leb_le. intros [[Hto Hv] Hm].
+  destruct t as [to v memo]. cbn [tr_to tr_value tr_memo] in *.
+  unfold transfer_bytes, parse_transfer. cbn [tr_to tr_value tr_memo app].
+  change (TransferID =? TransferID) with true. cbn [negb]. cbv zeta.
+  assert (Bto : blen to = AddressLen) by (unfold blen; rewrite Hto; reflexivity).
+  assert (B8 : blen (be_enc 8 v) = 8) by (unfold blen; rewrite be_enc_length; reflexivity).
+  assert (B4 : blen (be_enc 4 (blen memo)) = 4) by (unfold blen at 1; rewrite be_enc_length; reflexivity).
+  rewrite (ltb_n_app _ _ _ Bto). rewrite ?(drop_n_app _ _ _ Bto). rewrite ?(take_n_app _ _ _ Bto).
+  rewrite (ltb_n_app _ _ _ B8). rewrite ?(drop_n_app _ _ _ B8). rewrite ?(take_n_app _ _ _ B8).
+  rewrite (ltb_n_app _ _ _ B4). rewrite ?(drop_n_app _ _ _ B4). rewrite ?(take_n_app _ _ _ B4).
+  rewrite !be_dec_enc.
+  change (256 ^ N.of_nat 4) with 4294967296. change (256 ^ N.of_nat 8) with (2 ^ 64).
+  rewrite (N.mod_small (blen memo)) by lia. rewrite (N.mod_small v) by exact Hv.
+  unfold MaxInt32, MaxMemoSize.
+  destruct (N.ltb_spec 2147483647 (blen memo)) as [|_]; [lia|].
+  rewrite N.ltb_irrefl, N.eqb_refl. cbn [negb].
+  destruct (N.ltb_spec 256 (blen memo)) as [|_]; [lia|]. reflexivity.
+Qed.
+
+Lemma transfer_bytes_small t : valid_transfer t = true -> blen (transfer_bytes t) < 2 ^ 64.
+Proof.
+  unfold valid_transfer. rewrite !andb_true_iff, Nat.eqb_eq, N.leb_le. intros [[Hto _] Hm].
+  unfold transfer_bytes. rewrite !blen_app. unfold blen at 2 3 4. rewrite !be_enc_length, Hto.
+  change (blen [TransferID]) with 1. change (2 ^ 64) with 18446744073709551616. lia.
+Qed.
+
+Lemma morpheus_action_rt t : valid_transfer t = true -> morpheus_action_parser (transfer_bytes t) = Some t.
+Proof. intros H. unfold morpheus_action_parser. cbn -[parse_transfer]. apply parse_transfer_rt. exact H. Qed.
+
+(* the three auth formats: type id, exact size, (BLS) key accepted by the library *)
+Definition valid_auth (bls_ok : bytes -> bool) (a : bytes) : bool :=
+  match a with
+  | [] => false
+  | id :: _ =>
+      ((id =? 0) && (blen a =? ED25519Size)) || ((id =? 1) && (blen a =? SECP256R1Size)) ||
+      ((id =? 2) && (blen a =? BLSSize) && bls_ok a)
+  end.
+
+Lemma morpheus_auth_rt bls_ok a : valid_auth bls_ok a = true -> morpheus_auth_parser bls_ok a = Some a.
+Proof.
+  unfold valid_auth, morpheus_auth_parser, type_parser. destruct a as [|id p]; [discriminate|].
+  rewrite !orb_true_iff, !andb_true_iff, !N.eqb_eq. intros [[[-> Hl] | [-> Hl]] | [[-> Hl] Hb]];
+    cbn [lookup N.eqb Pos.eqb]; unfold parse_fixed_auth; rewrite Hl, N.eqb_refl; cbn [negb N.eqb Pos.eqb]; [reflexivity..|].
+  rewrite Hb. reflexivity.
+Qed.
+
+Lemma valid_auth_small bls_ok a : valid_auth bls_ok a = true -> blen a < 2 ^ 64.
+Proof.
+  unfold valid_auth. destruct a as [|id p]; [discriminate|].
+  rewrite !orb_true_iff, !andb_true_iff, !N.eqb_eq. unfold ED25519Size, SECP256R1Size, BLSSize.
+  change (2 ^ 64) with 18446744073709551616. intros [[[_ Hl] | [_ Hl]] | [[_ Hl] _]]; lia.
+Qed.
+
+Lemma morpheus_valid_tx_parts bls_ok b acts au :
+  valid_base b = true -> forallb valid_transfer acts = true -> valid_auth bls_ok au = true ->
+  valid_tx_parts transfer bytes morpheus_action_parser transfer_bytes (morpheus_auth_parser bls_ok) auth_id_bytes b acts au.
+Proof.
+  intros Hb Ha Hu. unfold valid_tx_parts. split; [exact Hb|]. split; [|split].
+  - apply Forall_forall. intros a Hin. rewrite forallb_forall in Ha. specialize (Ha a Hin).
+    split; [apply morpheus_action_rt | apply transfer_bytes_small]; exact Ha.
+  - apply morpheus_auth_rt. exact Hu.
+  - apply (valid_auth_small bls_ok). exact Hu.
 Qed.
